@@ -607,6 +607,8 @@ def _forall_deltas(f, b, lit_for, need_update=None):
         if cb is None:
             det["sites"].append({"at": c.where(), "form": c.name, "problem": "closure body not found"})
             continue
+        if cb.arg_count >= 2 and not cb.local_name(2):
+            m[("param", "_2")] = elem           # destructuring parameter pattern (`|(a, b)|`): the parameter has no name
         with _symmod.substituting(m):
             ok1, d1 = _OL.implies(cb, _Sym(cb), _QUANT[c.name], lit)
         if not ok1:
